@@ -2,7 +2,7 @@
 ID = 'C06'
 LEVEL = 'exploration'
 LEVEL_TEXT = ('bounded: every one of the 25 documented preferences alone (each non-default value), the minified preset (also with each one of its 12 preferences put back), a pairwise covering array over the full value domains and seeded random '
-              'full assignments (thorough: also all pairs of non-default values) x the DOMs of the abstract-sheet generator in 3 spellings + 46 hand-written sheets + token-adjacency sheets (all ordered pairs of 31 token classes in an unknown at-rule, compound x combinator x compound, media lists on every holder) (@variables, unknown '
+              'full assignments (thorough: also all pairs of non-default values) x the DOMs of the abstract-sheet generator in 3 spellings + 46 hand-written sheets + token-adjacency sheets (all ordered pairs of 31 token classes in an unknown at-rule, compound x combinator x compound, media lists on every holder) + a number grid (sign x integer part x fraction x unit around -1, 0, 1 as list component, function argument, calc() operand) (@variables, unknown '
               'at-rules with bare - # @, calc(), !important, :not(), namespaces, duplicates, invalid and empty declarations): serialising raises nothing, the output is well-formed by an '
               'independent token-level reading, its reparse projects to the DOM with exactly the documented effects applied, the spelling preferences show as documented, layout preferences '
               'leave the S-free token sequence unchanged, lineNumbers only prefixes lines, useDefaults() restores the default bytes; frame: documented names == attributes, useMinified within it')
